@@ -2,34 +2,25 @@ package main
 
 import (
 	"fmt"
+	"net/http"
+	"net/http/httptest"
+	"os"
 
-	"github.com/ysugimoto/falco/v2/config"
-	"github.com/ysugimoto/falco/v2/lexer"
-	"github.com/ysugimoto/falco/v2/linter"
-	lcontext "github.com/ysugimoto/falco/v2/linter/context"
-	"github.com/ysugimoto/falco/v2/parser"
+	"github.com/ysugimoto/falco/v2/interpreter"
+	icontext "github.com/ysugimoto/falco/v2/interpreter/context"
 	"github.com/ysugimoto/falco/v2/resolver"
 )
 
+// scratch debugging program: runs one request through the simulator for the VCL file given as argument
 func main() {
-	stmts := []string{
-		`set req.http.X-E = some.undefined.variable;`, `set var.i = "str";`, `set req.http.X-E = std.strlen();`, `set req.http.X-E = std.tolower(1);`,
-		`set req.http.Fastly-FF = "x";`, `set beresp.ttl = 1s;`, `set req.http.X-E = std.nope("a");`, `esi;`, `set req.http.X-E = table.lookup(nope, "k");`,
-		`set req.http.X-E = std.itoa(req.http.X-A) std.itoa(0, 1, 2);`, `set var.undeclared = 1;`, `set req.http.X-E = regsub(req.http.X-A);`,
-		`if (req.http.X-E == some.undefined.cond) { }`, `set req.http.X-A = "v";`, `set var.s = req.http.Host;`, `log "x" var.s;`, `set var.s = std.tolower(req.http.Host);`,
-	}
-	for _, s := range stmts {
-		src := "backend b { .host = \"127.0.0.1\"; .port = \"1\"; }\ntable t { \"a\": \"1\", }\nsub vcl_recv {\n#FASTLY recv\ndeclare local var.s STRING; declare local var.i INTEGER;\n" + s + "\n}\n"
-		vcl, err := parser.New(lexer.NewFromString(src, lexer.WithFile("main.vcl"))).ParseVCL()
-		if err != nil {
-			fmt.Println(s, "PARSE", err)
-			continue
-		}
-		lt := linter.New(&config.LinterConfig{})
-		lt.Lint(vcl, lcontext.New(lcontext.WithResolver(resolver.NewStaticResolver("main.vcl", src))))
-		fmt.Println(s)
-		for _, e := range lt.Errors {
-			fmt.Printf("    %d:%d [%s] rule=%q %s\n", e.Token.Line, e.Token.Position, e.Severity, e.Rule, e.Message)
-		}
+	b, _ := os.ReadFile(os.Args[1])
+	origin := httptest.NewServer(http.HandlerFunc(func(w http.ResponseWriter, r *http.Request) { w.Write([]byte("origin")) }))
+	defer origin.Close()
+	vcl := fmt.Sprintf("backend b { .host = \"127.0.0.1\"; .port = \"%s\"; .ssl = false; }\n", origin.URL[len("http://127.0.0.1:"):]) + string(b)
+	ip := interpreter.New(icontext.WithResolver(resolver.NewStaticResolver("main", vcl)))
+	for i := 0; i < 2; i++ {
+		rec := httptest.NewRecorder()
+		ip.ServeHTTP(rec, httptest.NewRequest("GET", "http://example.com/a", nil))
+		fmt.Println(rec.Code, rec.Body.String())
 	}
 }
